@@ -6,3 +6,32 @@ pub use crate::emitter::verif_hooks as emitter;
 pub use crate::formatting::verif_hooks as formatting;
 pub use crate::rustfmt_diff::verif_hooks as rustfmt_diff;
 pub use crate::sort::verif_hooks as sort;
+
+/// Fault injection for the containment checks: `RUSTFMT_VERIF_FAULT=<site>:<prefix>` makes the
+/// guarded formatting of one macro call (`macro`) or of one snippet (`snippet`) panic when its
+/// text starts with `<prefix>`.
+pub mod fault {
+    fn hit(site: &str, text: &str) -> bool {
+        match std::env::var("RUSTFMT_VERIF_FAULT") {
+            Ok(v) => match v.split_once(':') {
+                Some((s, prefix)) => s == site && text.starts_with(prefix),
+                None => false,
+            },
+            Err(_) => false,
+        }
+    }
+
+    pub(crate) fn at_macro(text: &str) {
+        if hit("macro", text) {
+            panic!("injected fault in the formatting of a macro call");
+        }
+    }
+
+    pub(crate) fn at_snippet(input: &crate::Input) {
+        if let crate::Input::Text(text) = input {
+            if hit("snippet", text) {
+                panic!("injected fault in the formatting of a snippet");
+            }
+        }
+    }
+}
